@@ -37,10 +37,21 @@ structure GCond where
   val : Bool
   deriving Repr
 
+/-- how a block is left early: `break`, `continue` (caught by the enclosing `foreach`) or `subdir_done()`
+(caught by nothing inside the file) -/
+inductive GSig where
+  | none | brk | cont | done
+  deriving DecidableEq, Repr
+
 mutual
   inductive GStmt where
     | probe (n : Nat)
     | ifs (cs : GClauses)
+    | exit (k : GSig)
+    /-- `foreach` over a one-element list -/
+    | loop1 (body : GBlock)
+    /-- `foreach` over a two-element list -/
+    | loop2 (body : GBlock)
   inductive GBlock where
     | nil
     | cons (s : GStmt) (b : GBlock)
@@ -55,21 +66,46 @@ abbrev GLog := List (Nat × Range)
 /-- interpreter state relevant here: `tmp_meson_version` -/
 abbrev GTmp := Option Range
 
+structure GRes where
+  log : GLog
+  tmp : GTmp
+  sig : GSig
+
+/-- what `evaluate_foreach` does with the way one iteration ended: `(stop iterating, signal passed on)` -/
+def GSig.afterIteration : GSig → Bool × GSig
+  | .none => (false, .none)
+  | .cont => (false, .none)
+  | .brk => (true, .none)
+  | .done => (true, .done)
+
 mutual
-  /-- `evaluate_statement` on the two statement kinds of the abstraction; `cur` is
-  `project_meson_versions[subproject]` (restored by the callee, hence not returned) -/
-  def runStmt : GStmt → Range → GTmp → GLog × GTmp
-    | .probe n, cur, tmp => ([(n, cur)], tmp)
+  /-- `evaluate_statement` on the statement kinds of the abstraction; `cur` is
+  `project_meson_versions[subproject]`: the `finally` clause of `evaluate_if` restores it however the block
+  is left, hence it is lexically scoped here and not returned -/
+  def runStmt : GStmt → Range → GTmp → GRes
+    | .probe n, cur, tmp => ⟨[(n, cur)], tmp, .none⟩
     | .ifs cs, cur, tmp => runClauses cs cur tmp
-  /-- `evaluate_codeblock` -/
-  def runBlock : GBlock → Range → GTmp → GLog × GTmp
-    | .nil, _, tmp => ([], tmp)
+    | .exit k, _, tmp => ⟨[], tmp, k⟩
+    | .loop1 body, cur, tmp =>
+      let r := runBlock body cur tmp
+      ⟨r.log, r.tmp, r.sig.afterIteration.2⟩
+    | .loop2 body, cur, tmp =>
+      let r1 := runBlock body cur tmp
+      if r1.sig.afterIteration.1 then ⟨r1.log, r1.tmp, r1.sig.afterIteration.2⟩
+      else
+        let r2 := runBlock body cur r1.tmp
+        ⟨r1.log ++ r2.log, r2.tmp, r2.sig.afterIteration.2⟩
+  /-- `evaluate_codeblock`: a signal ends the block -/
+  def runBlock : GBlock → Range → GTmp → GRes
+    | .nil, _, tmp => ⟨[], tmp, .none⟩
     | .cons s b, cur, tmp =>
       let r1 := runStmt s cur tmp
-      let r2 := runBlock b cur r1.2
-      (r1.1 ++ r2.1, r2.2)
+      if r1.sig = .none then
+        let r2 := runBlock b cur r1.tmp
+        ⟨r1.log ++ r2.log, r2.tmp, r2.sig⟩
+      else r1
   /-- the `for i in node.ifs` loop of `evaluate_if`, then the else block -/
-  def runClauses : GClauses → Range → GTmp → GLog × GTmp
+  def runClauses : GClauses → Range → GTmp → GRes
     | .els b, cur, tmp => runBlock b cur tmp
     | .cons c b cs, cur, _tmp =>
       -- self.tmp_meson_version = None; evaluating the condition sets it when it contains a version check
@@ -82,11 +118,18 @@ mutual
 end
 
 /-! the variant in which the reset is hoisted out of the loop (one reset per `if` statement):
-`tmp_meson_version` of an earlier clause survives into later clauses of the same statement -/
+`tmp_meson_version` of an earlier clause survives into later clauses of the same statement
+(signals are irrelevant to it and ignored) -/
 mutual
   def runStmtH : GStmt → Range → GTmp → GLog × GTmp
     | .probe n, cur, tmp => ([(n, cur)], tmp)
     | .ifs cs, cur, _tmp => runClausesH cs cur none
+    | .exit _, _, tmp => ([], tmp)
+    | .loop1 body, cur, tmp => runBlockH body cur tmp
+    | .loop2 body, cur, tmp =>
+      let r1 := runBlockH body cur tmp
+      let r2 := runBlockH body cur r1.2
+      (r1.1 ++ r2.1, r2.2)
   def runBlockH : GBlock → Range → GTmp → GLog × GTmp
     | .nil, _, tmp => ([], tmp)
     | .cons s b, cur, tmp =>
@@ -106,6 +149,45 @@ mutual
       else runClausesH cs cur tmp1
 end
 
+/-! the variant in which the range is restored only when the block ends normally or with an error
+(`except Exception` instead of `finally`): `break`, `continue` and `subdir_done()` are `BaseException`s, so
+the narrowed range stays in force.  Here the range in force is interpreter STATE and is returned. -/
+mutual
+  def runStmtL : GStmt → Range → GTmp → GRes × Range
+    | .probe n, cur, tmp => (⟨[(n, cur)], tmp, .none⟩, cur)
+    | .ifs cs, cur, tmp => runClausesL cs cur tmp
+    | .exit k, cur, tmp => (⟨[], tmp, k⟩, cur)
+    | .loop1 body, cur, tmp =>
+      let r := runBlockL body cur tmp
+      (⟨r.1.log, r.1.tmp, r.1.sig.afterIteration.2⟩, r.2)
+    | .loop2 body, cur, tmp =>
+      let r1 := runBlockL body cur tmp
+      if r1.1.sig.afterIteration.1 then (⟨r1.1.log, r1.1.tmp, r1.1.sig.afterIteration.2⟩, r1.2)
+      else
+        let r2 := runBlockL body r1.2 r1.1.tmp
+        (⟨r1.1.log ++ r2.1.log, r2.1.tmp, r2.1.sig.afterIteration.2⟩, r2.2)
+  def runBlockL : GBlock → Range → GTmp → GRes × Range
+    | .nil, cur, tmp => (⟨[], tmp, .none⟩, cur)
+    | .cons s b, cur, tmp =>
+      let r1 := runStmtL s cur tmp
+      if r1.1.sig = .none then
+        let r2 := runBlockL b r1.2 r1.1.tmp
+        (⟨r1.1.log ++ r2.1.log, r2.1.tmp, r2.1.sig⟩, r2.2)
+      else r1
+  def runClausesL : GClauses → Range → GTmp → GRes × Range
+    | .els b, cur, tmp => runBlockL b cur tmp
+    | .cons c b cs, cur, _tmp =>
+      let tmp1 : GTmp := c.own
+      let narrowed := match tmp1 with
+        | some r => cur.intersect r
+        | none => cur
+      if c.val then
+        let r := runBlockL b narrowed tmp1
+        -- restored only when no signal passes through
+        (r.1, if r.1.sig = .none then cur else r.2)
+      else runClausesL cs cur tmp1
+end
+
 /-! ## Specification: each executed probe with the version checks of the clauses enclosing it -/
 
 abbrev GPaths := List (Nat × List Range)
@@ -115,17 +197,34 @@ def addPath (r : Option Range) (ps : GPaths) : GPaths :=
   | some r => ps.map (fun p => (p.1, r :: p.2))
   | none => ps
 
+/-! reference evaluation of the control flow alone (no ranges, no interpreter state) -/
 mutual
-  def pathsStmt : GStmt → GPaths
-    | .probe n => [(n, [])]
+  def pathsStmt : GStmt → GPaths × GSig
+    | .probe n => ([(n, [])], .none)
     | .ifs cs => pathsClauses cs
-  def pathsBlock : GBlock → GPaths
-    | .nil => []
-    | .cons s b => pathsStmt s ++ pathsBlock b
-  def pathsClauses : GClauses → GPaths
+    | .exit k => ([], k)
+    | .loop1 body =>
+      let r := pathsBlock body
+      (r.1, r.2.afterIteration.2)
+    | .loop2 body =>
+      let r := pathsBlock body
+      if r.2.afterIteration.1 then (r.1, r.2.afterIteration.2)
+      else (r.1 ++ r.1, r.2.afterIteration.2)
+  def pathsBlock : GBlock → GPaths × GSig
+    | .nil => ([], .none)
+    | .cons s b =>
+      let r1 := pathsStmt s
+      if r1.2 = .none then
+        let r2 := pathsBlock b
+        (r1.1 ++ r2.1, r2.2)
+      else r1
+  def pathsClauses : GClauses → GPaths × GSig
     | .els b => pathsBlock b
     | .cons c b cs =>
-      if c.val then addPath c.own (pathsBlock b) else pathsClauses cs
+      if c.val then
+        let r := pathsBlock b
+        (addPath c.own r.1, r.2)
+      else pathsClauses cs
 end
 
 /-- the range a probe must see: the range in force outside, narrowed by the enclosing checks from the
